@@ -24,7 +24,7 @@ ASSUMPTIONS = [
     "hook logs of failed children assignments are not prescribed by the statement; only layers 2 and 3 apply to them",
     "calls in which a hook edits the tree itself (plan 'evict': a per-node hook detaches the first other child of its parent argument, a *_children hook re-files the first listed child under another node) are judged by layer 3 and link consistency only",
 ]
-CLASS_SPECS = ["HNM", "HLM", "HNode", "HDictLM", ["HNode", "HAnyNode", "HSymlink", "HNM"], ["HLM", "HDictLM"], "HLateNM", "HLateLM", "HInstNM", "HSlotStoreNM", "HSideNM", "HArmNM", "HInstLM", "HCoopNM", "HCoopLM"]
+CLASS_SPECS = ["HNM", "HLM", "HNode", "HDictLM", ["HNode", "HAnyNode", "HSymlink", "HNM"], ["HLM", "HDictLM"], "HLateNM", "HLateLM", "HInstNM", "HSlotStoreNM", "HSideNM", "HArmNM", "HInstLM", "HCoopNM", "HCoopLM", "HCopyNM", "HCopyLM"]
 
 
 def detach_of(state, n, old):
